@@ -131,6 +131,9 @@ func (w *World) tok(kind string, id int) string {
 			return t
 		}
 	}
+	if kind == "par" { // a request_uri with the right prefix that was never handed out
+		return w.Config.GetPushedAuthorizeRequestURIPrefix(context.Background()) + "bm90LWEtcHVzaGVkLXJlcXVlc3QtMDEyMzQ1Njc4OQ"
+	}
 	return unknownToken
 }
 
